@@ -54,6 +54,19 @@ func NewRow(t *Table) *Row {
 	return &Row{Table: t, Vals: map[string]any{}, SetVals: map[string][]any{}, LinkedRows: map[string][]*Row{}, cursors: map[string]*setCursor{}}
 }
 
+// ResetCursors forgets every set cursor opened on the row and its linked rows, so that a row can be reused for the
+// next query in the state a fresh row has.
+func (r *Row) ResetCursors() {
+	if len(r.cursors) > 0 {
+		r.cursors = map[string]*setCursor{}
+	}
+	for _, lrs := range r.LinkedRows {
+		for _, lr := range lrs {
+			lr.ResetCursors()
+		}
+	}
+}
+
 func (r *Row) value(name string) any {
 	if r.Sets[name] {
 		if c := r.cursors[name]; c != nil && c.IsValid() {
